@@ -77,17 +77,40 @@ def _negative(run, cfgs, tier):
     return ev, nrej, nacc, len(cases)
 
 
+def _selftest(run, ro, units):
+    """Perturb the ORACLE (not Au): an affine offset that is off by one unit must be noticed."""
+    u = {x.name: x for x in units}
+    it = S.Conv(0, u["celsius"], "int64_t", u["milli_kelvins"], "int64_t", ro["disp"][("celsius", "milli_kelvins")]["disp"])
+    it.kd += 1
+    it.ops[core.GXX14.name] = {"ci": True, "pol": False}
+    it.iv = [(-5, 5)]
+    stats, viols = S.build_and_run(run.wd, core.GXX14, "selftest", [it], [], nsplit=1)
+    if not any(v["kind"] == "conversion" for v in viols):
+        raise core.InfraError("C09 selftest: a perturbed oracle was not noticed")
+    return len(viols)
+
+
 def check(run):
     tier = run.tier
     quick = tier == "quick"
     units, qunits = S.point_units(tier), S.quantity_units(tier)
-    allk = ("conv", "pair", "shift")
-    if quick:   # the second build (C++20 <=>, UBSan) sweeps the two-operand instances only
-        sweeps = [(core.GXX14, [], "g++-14", allk), (core.CLANG20, S.UBSAN, "clang-20-ubsan", ("pair", "shift"))]
+    core6 = {u.name for u in S.point_units("quick")}
+    is_core = lambda it: it.u1.name in core6 and (it.kind == "shift" or it.u2.name in core6)
+    every = lambda it: True
+    # (config, flags, build name, [(instance kind, filter)]) — the first build sweeps everything; the C++20 /
+    # UBSan builds concentrate on the two-operand instances (<=>) and the core units' conversions
+    if quick:
+        sweeps = [(core.GXX14, [], "g++-14", [("conv", every), ("pair", every), ("shift", every)]),
+                  (core.CLANG20, S.UBSAN, "clang-20-ubsan", [("pair", every), ("shift", every)])]
     else:
-        sweeps = [(core.GXX14, [], "g++-14", allk), (core.CLANG20, S.UBSAN, "clang-20-ubsan", allk),
-                  (core.GXX20, [], "g++-20", ("pair", "shift"))]
+        sweeps = [(core.GXX14, [], "g++-14", [("conv", every), ("pair", every), ("shift", every)]),
+                  (core.CLANG20, S.UBSAN, "clang-20-ubsan", [("pair", every), ("shift", every), ("conv", is_core)]),
+                  (core.GXX20, [], "g++-20", [("pair", is_core)])]
+    phases = {}
     ro = S.readouts(os.path.join(run.wd, "readout"), core.GXX14, units, qunits)
+    phases["readout"] = round(run.elapsed(), 1)
+    if getattr(run, "selftest", False):
+        run.cov["selftest_perturbed_oracle_mismatches"] = _selftest(run, ro, units)
     # the displacement between two origins must be exactly o2 - o1
     for (a, b), o in sorted(ro["disp"].items()):
         ua = [u for u in units if u.name == a][0]
@@ -108,50 +131,59 @@ def check(run):
         m = min(u.o for u in units if u.name in (a, b))
         cpu_origin_not_min += oc != m
     mism, nacc, nrej = [], 0, 0
-    for cfg, _, _, kinds in sweeps:
-        m, a, r = S.run_domain_probes(run.wd, cfg, [it for it in insts if it.kind in kinds])
+    neg_cfgs = core.CORNERS if quick else core.CFG6
+    t0 = run.elapsed()
+    neg_ev, neg_rej, neg_acc, neg_cases = _negative(run, neg_cfgs, tier)
+    phases["negative_probes"] = round(run.elapsed() - t0, 1)
+    t0 = run.elapsed()
+    for cfg, _, _, parts in sweeps:
+        m, a, r = S.run_domain_probes(run.wd, cfg, [it for it in insts if any(it.kind == k and f(it) for k, f in parts)])
         mism += m
         nacc += a
         nrej += r
+    phases["domain_probes"] = round(run.elapsed() - t0, 1)
     big = 2 ** 15
-    pbig = 2 ** 11 if quick else 2 ** 14
+    pbig = 2 ** 11
+    pbig_core = 2 ** 11 if quick else 2 ** 12
     for it in insts:
         if it.kind == "conv":
             it.prepare(big, 40)
         elif it.kind == "pair":
-            it.prepare(pbig, 2)
+            it.prepare(pbig_core if is_core(it) else pbig, 2)
         else:
-            it.prepare(pbig, 3)
+            it.prepare(pbig_core if is_core(it) else pbig, 3)
     allstats, nviol, done, cut = [], 0, [], []
-    for cfg, flags, build, kinds in sweeps:
-        if run.time_left() < 400:
-            cut.append(build)
-            continue
-        acc = [it for it in insts if it.kind in kinds and it.swept(cfg)]
-        for kind, frac in (("conv", 0.5), ("pair", 0.35), ("shift", 0.5)):
-            if kind not in kinds:
-                continue
-            tot = [it for it in insts if it.kind == kind]
-            got = [it for it in acc if it.kind == kind]
-            if len(got) < frac * len(tot):
+    rate = None      # measured wall seconds per unit of estimated work, for the deadline guard only
+    for cfg, flags, build, parts in sweeps:
+        for kind, flt in parts:
+            tot = [it for it in insts if it.kind == kind and flt(it)]
+            acc = [it for it in tot if it.swept(cfg)]
+            if len(acc) < {"conv": 0.5, "pair": 0.35, "shift": 0.5}[kind] * len(tot):
                 raise core.InfraError("vacuity guard: only %d of %d %s instances are in-domain under %s (e.g. %s)"
-                                      % (len(got), len(tot), kind, cfg, mism[:2]))
-        stats, viols = S.build_and_run(run.wd, cfg, build, acc, flags, nsplit=core.NCPU * 3,
-                                       timeout=max(300, min(3000, run.time_left())))
-        trapped = any(v["kind"] == "trap" for v in viols)
-        if len(stats) != len(acc) and not trapped:
-            raise core.InfraError("C09: %d instances swept but %d reported" % (len(acc), len(stats)))
-        nviol += _report(run, cfg, build, flags, by_id, viols)
-        vac = [s for s in stats if s["judged"] == 0]
-        if len(vac) > 0.25 * len(stats):
-            raise core.InfraError("vacuity guard: %d of %d swept instances have no value inside the precondition (e.g. %s)"
-                                  % (len(vac), len(stats), by_id[vac[0]["inst"]].desc()))
-        allstats += [dict(s, build=build) for s in stats]
-        done.append(build)
+                                      % (len(acc), len(tot), kind, cfg, mism[:2]))
+            work = sum(it.weight() + 300000 for it in acc) * (1.6 if cfg.is_clang else 1.0)
+            need = rate * work * 1.3 if rate else 300
+            if run.time_left() < need + 60:
+                cut.append("%s:%s" % (build, kind))
+                continue
+            t0 = run.elapsed()
+            stats, viols = S.build_and_run(run.wd, cfg, "%s_%s" % (build, kind), acc, flags, nsplit=core.NCPU * 2,
+                                           timeout=max(300, min(3000, run.time_left())))
+            rate = max(rate or 0, (run.elapsed() - t0) / work)
+            phases["sweep %s %s" % (build, kind)] = round(run.elapsed() - t0, 1)
+            trapped = any(v["kind"] == "trap" for v in viols)
+            if len(stats) != len(acc) and not trapped:
+                raise core.InfraError("C09: %d instances swept but %d reported" % (len(acc), len(stats)))
+            nviol += _report(run, cfg, build, flags, by_id, viols)
+            vac = [s for s in stats if s["judged"] == 0]
+            if len(vac) > 0.3 * len(stats):
+                raise core.InfraError("vacuity guard: %d of %d swept %s instances have no value inside the precondition (e.g. %s)"
+                                      % (len(vac), len(stats), kind, by_id[vac[0]["inst"]].desc()))
+            allstats += [dict(s, build=build) for s in stats]
+            if build not in done:
+                done.append(build)
     if not done:
         raise core.InfraError("deadline reached before any sweep configuration ran")
-    neg_cfgs = core.CORNERS if quick else core.CFG6
-    neg_ev, neg_rej, neg_acc, neg_cases = _negative(run, neg_cfgs, tier)
     first = [s for s in allstats if s["build"] == done[0]]
     nontriv = 0
     for s in first:
@@ -175,6 +207,8 @@ def check(run):
         "ubsan_reports": tot("ubsan"),
         "instances_candidates": {k: sum(1 for it in insts if it.kind == k) for k in ("conv", "pair", "shift")},
         "instances_statically_outside_statement": sum(1 for it in insts if it.static_out),
+        "instances_statically_outside_statement_reasons": {r: sum(1 for it in insts if it.static_out == r)
+                                                           for r in sorted({it.static_out for it in insts if it.static_out})},
         "instances_swept_first_build": swept_by_kind,
         "instances_without_any_judged_value": sum(1 for s in first if s["judged"] == 0),
         "conv_instances_with_policy_checked_in_as": sum(1 for it in insts if it.kind == "conv" and it.ops.get(sweeps[0][0].name, {}).get("pol")),
@@ -186,9 +220,11 @@ def check(run):
         "domain_mismatch_count": len(mism), "domain_mismatch": mism[:10],
         "negative_probe_cases": neg_cases, "negative_probes_rejected": neg_rej, "negative_twins_accepted": neg_acc,
         "negative_probe_configs": [str(c) for c in neg_cfgs],
+        "phase_wall_seconds": phases,
         "sweep_builds": done, "sweep_builds_cut_by_deadline": cut,
-        "sweep_build_instance_kinds": {b: list(k) for (_, _, b, k) in sweeps},
-        "window_radius_conversions": big, "window_radius_point_pairs": pbig,
+        "sweep_build_instance_kinds": {b: [k + ("" if f is every else " (six core units only)") for k, f in parts]
+                                       for (_, _, b, parts) in sweeps},
+        "window_radius_conversions": big, "window_radius_point_pairs": pbig, "window_radius_point_pairs_core_units": pbig_core,
         "distinct_nontrivial": nontriv,
         "raw_violation_records": nviol,
         "rule": "conv instance = ordered pair of distinct point units x (source rep, target rep) in {int32,int64,double,float,"
